@@ -723,7 +723,7 @@ func (st *States) SetAllowConsensus(allow bool) bool { // revive:disable-line:fl
 	isset := st.setAllowConsensus(allow)
 
 	if isset {
-		switch current := st.current(); {
+		switch current := st.cs; { // NOTE stateLock is already read-locked; current() locks again
 		case current == nil:
 		case current.state() == StateJoining, current.state() == StateConsensus:
 			st.Log().Debug().Stringer("current", current.state()).Bool("allow", allow).Msg("set allow consensus")
